@@ -21,7 +21,11 @@
 typedef struct { uint64_t s; } lrng;
 static uint64_t lr(lrng *r){ uint64_t z=(r->s+=0x9E3779B97F4A7C15ULL); z=(z^(z>>30))*0xBF58476D1CE4E5B9ULL; z=(z^(z>>27))*0x94D049BB133111EBULL; return z^(z>>31); }
 static int g_yield=0;
-static void yieldpt(lrng *r){ if(!g_yield)return; uint64_t x=lr(r); if((x&7)==0)sched_yield(); else if((x&255)==1)usleep(30); }
+/* VERIF_STACKPAINT=<byte>: between library calls the stack below the caller is filled with that byte, so that whatever the
+   library leaves uninitialised in its automatic arrays (alloca included) holds it: outputs must not depend on the byte */
+static int g_paint=-1;
+static void __attribute__((noinline)) paint_stack(int byte){ volatile unsigned char buf[196608]; memset((void*)buf,byte,sizeof buf); __asm__ volatile("" :: "r"(buf) : "memory"); }
+static void yieldpt(lrng *r){ if(g_paint>=0)paint_stack(g_paint); if(!g_yield)return; uint64_t x=lr(r); if((x&7)==0)sched_yield(); else if((x&255)==1)usleep(30); }
 #define H(h,p,n) do{ const unsigned char *_b=(const unsigned char*)(p); for(long _i=0;_i<(long)(n);_i++){ (h)^=_b[_i]; (h)*=0x100000001b3ULL; } }while(0)
 #define HV(h,v) do{ long long _v=(long long)(v); H(h,&_v,8); }while(0)
 
@@ -39,7 +43,9 @@ static void fillsig(float **b,int ch,long k,int sig,long pos,lrng *r){
     switch(sig){ case 0: x=(float)((double)(lr(r)>>11)/9007199254740992.0*2-1)*0.6f; break;
       case 1: x=(float)(0.5*sin(t*0.03*(c+1))+0.2*sin(t*0.41)); break;
       case 2: x=((pos+i)%700==(c*31)%700)?0.95f:0.f; break;
-      default: x=(((pos+i)/3000)&1)?(float)((double)(lr(r)>>11)/9007199254740992.0-0.5):0.f; break; }
+      case 3: x=(((pos+i)/3000)&1)?(float)((double)(lr(r)>>11)/9007199254740992.0-0.5):0.f; break;
+      /* near-silent lead-in and stretches (-140 dBFS): the analysis paths that give up on an almost empty window */
+      default: x=(((pos+i)/5000)&1)?(float)(0.4*sin(t*0.05*(c+1))):(float)((double)(lr(r)>>11)/9007199254740992.0-0.5)*2e-7f; break; }
     b[c][i]=x; }
 }
 /* encoder: signal -> Ogg pages; hash of every byte */
@@ -138,16 +144,17 @@ static void *worker(void *p){
 
 int main(int argc,char **argv){
   uint64_t seed=strtoull(argv[1],NULL,10); int njobs=atoi(argv[2]),rounds=atoi(argv[3]),maxthr=atoi(argv[4]); long scale=atol(argv[5]);
+  if(getenv("VERIF_STACKPAINT"))g_paint=atoi(getenv("VERIF_STACKPAINT"))&255;
   lrng r={seed};
   /* shared read-only inputs: one or two links per stream */
   vbuf streams[NCFG]; memset(streams,0,sizeof streams);
   for(int c=0;c<NCFG;c++){
-    job e={0,c,(int)(lr(&r)%4),3000+(long)(lr(&r)%(uint64_t)scale),lr(&r),NULL,0,&streams[c]}; runjob(&e);
-    if(c%2==0){ job e2={0,(c+3)%NCFG,(int)(lr(&r)%4),2000+(long)(lr(&r)%(uint64_t)scale),lr(&r),NULL,0,&streams[c]}; runjob(&e2); }   /* chained */
+    job e={0,c,(int)(lr(&r)%5),3000+(long)(lr(&r)%(uint64_t)scale),lr(&r),NULL,0,&streams[c]}; runjob(&e);
+    if(c%2==0){ job e2={0,(c+3)%NCFG,(int)(lr(&r)%5),2000+(long)(lr(&r)%(uint64_t)scale),lr(&r),NULL,0,&streams[c]}; runjob(&e2); }   /* chained */
   }
   job *jobs=calloc(njobs,sizeof *jobs);
   for(int k=0;k<njobs;k++){
-    jobs[k].kind=k%3; jobs[k].cfg=(int)(lr(&r)%NCFG); jobs[k].sig=(int)(lr(&r)%4); jobs[k].seed=lr(&r);
+    jobs[k].kind=k%3; jobs[k].cfg=(int)(lr(&r)%NCFG); jobs[k].sig=(int)(lr(&r)%5); jobs[k].seed=lr(&r);
     jobs[k].n=jobs[k].kind==0?2000+(long)(lr(&r)%(uint64_t)scale):jobs[k].kind==2?20+(long)(lr(&r)%60):0;
     /* every other encoder job is tiny: lead-in and first block come from freshly allocated buffers */
     if(jobs[k].kind==0&&(k/3)%2==1){ static const long tiny[]={0,1,16,32,33,64,300}; jobs[k].n=tiny[lr(&r)%7]; }
